@@ -1368,6 +1368,12 @@ class MayRaise:
             if base == "dict" and meth == "pop":
                 add("dict.pop", "KeyError", len(e.args) >= 2, "no default")
                 return out
+            if base == "bytearray" and meth in ("clear", "extend", "append", "pop", "insert", "remove") and isinstance(e.func.value, ast.Attribute):
+                # resizing a bytearray that a live memoryview exports raises BufferError
+                exp = self.exported_earlier(e, fi)
+                if exp is not None:
+                    add("bytearray-resize-while-exported", "BufferError", False,
+                        f"`{norm(e.func.value)}` is exported to `{norm(exp)[:40]}` (line {exp.lineno}) and resized here while that view may be alive")
             if base == "bytearray" and meth == "append":
                 lo, hi = self.ival(e.args[0], facts, fi) if e.args else (-INF, INF)
                 add("bytearray-store", "ValueError", lo >= 0 and hi <= 255, f"appended value in [{lo}, {hi}]")
@@ -1402,6 +1408,34 @@ class MayRaise:
         self.unknown_calls.append(f"{fi.qualname}:{e.lineno} {norm(e)[:80]} [{name}]")
         out.add(Esc("Other", fi.qualname, norm(e)[:120], e.lineno, "unknown-call"))
         return out
+
+    def exports_buffer(self, c: ast.Call, fi: FuncInfo) -> bool:
+        """memoryview(x), or the constructor of a package class whose __init__ keeps memoryview(<its parameter>)"""
+        if isinstance(c.func, ast.Name) and c.func.id == "memoryview":
+            return True
+        q = self.m.resolve_name(fi.module, norm(c.func)) if isinstance(c.func, (ast.Name, ast.Attribute)) else None
+        if q in self.m.classes:
+            init = self.m.find_method(q, "__init__")
+            if init is not None:
+                ps = set(init.params()[1:])
+                alias = {t_.id for a in walk_no_nested(init.node) if isinstance(a, ast.Assign) and isinstance(a.value, ast.Name) and a.value.id in ps
+                         for t_ in a.targets if isinstance(t_, ast.Name)}
+                for x in walk_no_nested(init.node):
+                    if isinstance(x, ast.Call) and isinstance(x.func, ast.Name) and x.func.id == "memoryview" and x.args:
+                        root = x.args[0]
+                        while isinstance(root, ast.Attribute):
+                            root = root.value
+                        if isinstance(root, ast.Name) and (root.id in ps or root.id in alias or root.id == "self"):
+                            return True
+        return False
+
+    def exported_earlier(self, e: ast.Call, fi: FuncInfo) -> Optional[ast.Call]:
+        """a call earlier in this function that hands the same attribute to something that keeps a memoryview of it"""
+        target = norm(e.func.value)
+        for c in walk_no_nested(fi.node):
+            if isinstance(c, ast.Call) and c.lineno < e.lineno and any(norm(a) == target for a in c.args) and self.exports_buffer(c, fi):
+                return c
+        return None
 
     def format_ok(self, e: ast.Call, fi: FuncInfo) -> Tuple[bool, str]:
         """"<constant template>".format(args): every replacement field names a supplied argument, and a field with a
